@@ -28,6 +28,7 @@ func main() {
 	out := flag.String("out", "/verif/evidence", "evidence directory")
 	knownPath := flag.String("known", "/verif/known_findings.txt", "known findings file (read only)")
 	list := flag.Bool("list", false, "list obligations")
+	dumpFuncs := flag.Bool("dumpfuncs", false, "print the reference list of named canopy functions (cv/reference_funcs.txt) and exit")
 	selftest := flag.String("selftest", "", "JSON result of selftest/run.sh for the (single) property; merged into the evidence (thorough tier)")
 	flag.Parse()
 	seed := 0
@@ -70,6 +71,13 @@ func main() {
 			}
 		}
 		os.Exit(maxInt(code, 1))
+	}
+	theProg = p
+	if *dumpFuncs {
+		for _, n := range p.dumpFuncs() {
+			fmt.Println(n)
+		}
+		os.Exit(0)
 	}
 	fmt.Fprintf(os.Stderr, "loaded %d packages (%d canopy), %d canopy functions, call graph %s %d nodes / %d edges, in %.1fs\n",
 		p.Stats["packages_loaded"], p.Stats["canopy_packages"], p.Stats["canopy_functions"], p.CGKind, p.Stats["callgraph_nodes"], p.Stats["callgraph_edges"], p.LoadS)
